@@ -12,7 +12,8 @@ RULE = (
     "same header name exists in several directories with different bodies; quote, angle and computed includes nested up "
     "to the include-depth the guards allow; unguarded / #ifndef-guarded / #pragma once headers that define, undefine and "
     "test macros; commands with random sequences of -I/-isystem flags, -D sets and -include, turned into entries by "
-    "codebasin's own argument parser. Oracle: reference model with the documented search rules (no memo) giving the "
+    "codebasin's own argument parser; a second family puts *directories* spelled like a header (cb/inc1/h.h/) into the "
+    "searched directories where that header is absent - a compiler passes over them, the first existing *file* wins. Oracle: reference model with the documented search rules (no memo) giving the "
     "platform set of every counted line of every code-base file; gcc -E with the same flags validates the model on marker "
     "lines (sampled and on every disagreement); cases with a reached missing header or any gcc diagnostic are discarded. "
     "Non-trivial: some include had >=2 candidate files, or one spelling resolved to >=2 files, or a header was entered "
@@ -40,6 +41,33 @@ def nontrivial(info):
     return False
 
 
+def passed_dirs(case, info):
+    """Include directives (model trace) whose search passed over a directory
+    spelled like the header before reaching the file that a compiler opens:
+    -> set of (spelling, directory that was passed over).  Statistics only; the
+    expected attribution comes from the reference model, which asks the disk."""
+    shadows = {os.path.normpath(x) for x in case.get("shadow_dirs", [])}
+    out = set()
+    if not shadows:
+        return out
+    root = os.path.realpath(info["root"])
+    for (pname, i), (trace, entered) in info["traces"].items():
+        dirs = [(k, os.path.normpath(d)) for k, d in case["platforms"][pname][i].get("dirs", [])]
+        sysd = [d for k, d in dirs if k == "isystem"]
+        search0 = [d for k, d in dirs if k == "I" and d not in sysd] + sysd
+        for includer, form, sp, resolved, ncand in trace:
+            if not resolved:
+                continue
+            search = ([os.path.relpath(os.path.dirname(includer), root)] if form == "quote" else []) + search0
+            for d in search:
+                p = os.path.normpath(os.path.join(d, sp))
+                if p in shadows:
+                    out.add((sp, p))
+                elif os.path.realpath(os.path.join(root, p)) == resolved:
+                    break
+    return out
+
+
 def check_case(case, res: Result, confirm="on-failure"):
     vs, info = pp_check.evaluate(case, res, confirm=confirm)
     if vs is None:
@@ -48,20 +76,22 @@ def check_case(case, res: Result, confirm="on-failure"):
         res.discarded["reached-missing-header"] += 1
         return []
     nt = nontrivial(info)
+    passed = passed_dirs(case, info)
     nincl = sum(len(t[0]) for t in info["traces"].values())
     res.case(
-        key=[info["texts"], case["platforms"]],
-        nontrivial=nt,
+        key=[info["texts"], case["platforms"], sorted(case.get("shadow_dirs", []))],
+        nontrivial=nt or bool(passed),
         sample={"files": info["texts"], "platforms": case["platforms"]} if nincl >= 3 else None,
-        labels=[f"includes-evaluated={min(nincl, 8)}", "forced" if any(c.get("forced") for cs in case["platforms"].values() for c in cs) else "no-forced"],
+        labels=[f"includes-evaluated={min(nincl, 8)}", "forced" if any(c.get("forced") for cs in case["platforms"].values() for c in cs) else "no-forced"]
+        + (["dir-spelled-like-header:" + ("passed-over" if passed else "not-reached")] if case.get("shadow_dirs") else []),
     )
     # signatures for this property: keep the kind, drop the long feature list
     for v in vs:
-        v["signature"] = v["signature"].split("|")[0] + "|" + classify(case, info, v)
+        v["signature"] = v["signature"].split("|")[0] + "|" + classify(case, info, v, passed)
     return vs
 
 
-def classify(case, info, v):
+def classify(case, info, v, passed=()):
     """Name the include-resolution feature the (shrunk) case exercises."""
     feats = set()
     for (trace, entered) in info["traces"].values():
@@ -81,6 +111,8 @@ def classify(case, info, v):
         feats.add("isystem")
     if any(c.get("forced") for cs in case["platforms"].values() for c in cs):
         feats.add("forced")
+    if passed:
+        feats.add("dir-spelled-like-header")
     return ",".join(sorted(feats)) or "plain"
 
 
@@ -99,11 +131,51 @@ def _rand_shard(seed, n, known, confirm_every):
     return res
 
 
+def shadow_dir_cases():
+    """An include tree (same generator) in which some (directory, header name)
+    pairs that hold no header get a *directory* of that name instead
+    (cb/inc1/h.h/keep.txt).  gcc and the model (os.path.isfile on the real
+    tree) pass over such an entry and open the next existing file."""
+    from hypothesis import strategies as st
+
+    from vlib import gen_pp
+
+    @st.composite
+    def case(draw):
+        c = draw(gen_pp.include_tree_cases())
+        free = [f"{d}/{n}" for d in gen_pp.HDR_DIRS for n in gen_pp.HDR_NAMES if f"{d}/{n}" not in c["tree"]]
+        if not free:
+            return c
+        # mostly all of them (the more shadows the likelier one lies before the real header), sometimes a subset
+        chosen = free if draw(st.integers(0, 2)) else draw(st.lists(st.sampled_from(free), min_size=1, max_size=len(free), unique=True))
+        c["shadow_dirs"] = sorted(chosen)
+        c["extra"] = {**c.get("extra", {}), **{f"{p}/keep.txt": "" for p in chosen}}
+        return c
+
+    return case()
+
+
+def _shadow_shard(seed, n, known, confirm_every):
+    core.setup_import_path()
+    res = Result()
+    cnt = [0]
+
+    def chk(case, r):
+        cnt[0] += 1
+        return check_case(case, r, confirm="always" if cnt[0] % confirm_every == 0 else "on-failure")
+
+    core.hyp_search(shadow_dir_cases(), chk, n, seed, res, known_sigs=known)
+    return res
+
+
 def run(ctx):
     n = core.NPROC
     nrand = ctx.pick(1600, 30000)
     jobs = [(ctx.shard_seed("rand", i), nrand // n, ctx.known_sigs, ctx.pick(8, 1)) for i in range(n)]
     res = core.merge_results(core.pool_map(_rand_shard, jobs))
+    nsh = ctx.pick(320, 6000)
+    jobs = [(ctx.shard_seed("shadow-dir", i), max(1, nsh // n), ctx.known_sigs, ctx.pick(4, 1)) for i in range(n)]
+    res = core.merge_results([res] + core.pool_map(_shadow_shard, jobs))
     res.exhaustive = False
     return res
 
